@@ -226,7 +226,7 @@ pub fn run_case(c: &Case) -> Outcome {
             o.sig = format!("consist{}:iv{:?}:{}", units.len(), c.interval, if c.fail_at.is_some() { "fail" } else { "ok" });
         }
         Kind::SetSpeed(consist_kind) => {
-            let spec = TrainSpec { n_loaded: 5, n_empty: 5, davis: false, mass_override: None, length_override: None, consist: *consist_kind };
+            let spec = TrainSpec { n_loaded: 5, n_empty: 5, davis: false, mass_override: None, length_override: None, consist: *consist_kind, cd_vec: false };
             let b = builder(&spec, None, Some(InitTrainState::new(Some(0.0 * uc::S), None, Some(5.0 * uc::MPS))), c.interval);
             let time: Vec<f64> = (0..=c.len).map(|x| x as f64).collect();
             let speed: Vec<f64> = (0..=c.len).map(|i| if Some(i) == c.fail_at { -1.0 } else { 5.0 + 0.1 * i as f64 }).collect();
@@ -255,7 +255,7 @@ pub fn run_case(c: &Case) -> Outcome {
             // 3 x 400 m chain (short so that the run has ~100-200 steps); c.len selects the departure offset only
             let lens = [400.0, 400.0, 400.0];
             let net = build_topology(&line_topology(&lens, 15.0), false, SetStyle::Single);
-            let spec = TrainSpec { n_loaded: 2, n_empty: 1, davis: false, mass_override: None, length_override: None, consist: if c.len % 2 == 0 { 0 } else { 2 } };
+            let spec = TrainSpec { n_loaded: 2, n_empty: 1, davis: false, mass_override: None, length_override: None, consist: if c.len % 2 == 0 { 0 } else { 2 }, cd_vec: false };
             let lm = location_map(&[("A", vec![1]), ("B", vec![3])]);
             let b = builder(&spec, Some(("A", "B")), Some(InitTrainState::new(Some(c.len as f64 * 10.0 * uc::S), None, None)), c.interval);
             let mut sim = match b.make_speed_limit_train_sim(&lm, c.interval, None, None) {
